@@ -25,7 +25,7 @@ type c22method struct {
 func c22(x *ctx) {
 	r := x.run
 	thorough := x.tier == "thorough"
-	r.Rule = "generated classes whose body is every sequence of <=3 (thorough: 4) items from {plain def, `private`+def, `protected`+def, `public`+def, def self., class << self def, endless def, def with a multi-line signature}, " +
+	r.Rule = "generated classes whose body is every sequence of items from 15 kinds {plain def, `private`+def, `protected`+def, `public`+def, def self., class << self def, endless def, def with a multi-line signature, endless multi-line, class << self with its own private / protected section, methods returning an instance of the own class / a peer class / a top-level class} - quick: three items over the first 11 kinds, two items over all; thorough: three items over all, four over the first 9, " +
 		"optionally nested in a module, plus a top-level method; every method is called on its own row (instance methods through an instance, class methods on the class, non-public ones from a public method of the class). " +
 		"Oracles: -i prints exactly one signature hint per method at its def row tagged c/ or i/ with the visibility in effect (instance methods); --define --row=<call row> contains a record with the method's def row; " +
 		"--hover --row=<call row> prints a %<method>::: record. non-trivial = all"
@@ -48,8 +48,18 @@ func c22(x *ctx) {
 			return
 		}
 		for i := range kinds {
-			if !thorough && len(cur) >= 2 && (i >= nOldKinds || cur[0] >= nOldKinds || cur[1] >= nOldKinds) {
-				continue // quick: the instance-returning kinds in sequences of at most two items
+			// quick: sequences of three items over the first 11 kinds, of two items over all kinds;
+			// thorough: three items over all kinds, four items over the first 9 kinds
+			hi := i
+			for _, c := range cur {
+				hi = max(hi, c)
+			}
+			n := len(cur) + 1
+			if !thorough && n == 3 && hi >= nOldKinds {
+				continue
+			}
+			if thorough && n == 4 && hi >= 9 {
+				continue
 			}
 			rec(append(cur, i))
 		}
